@@ -70,7 +70,8 @@ pub fn deep_copy_array_data_sliced(data: &ArrayData) -> ArrayData {
     let mut mutable = MutableArrayData::new(vec![data], false, data.len());
 
     // Copy from offset to offset+len (the visible slice)
-    mutable.extend(0, data.offset(), data.offset() + data.len());
+    // `extend` takes positions relative to the array: it applies `data.offset()` itself
+    mutable.extend(0, 0, data.len());
 
     // Freeze into immutable ArrayData
     mutable.freeze()
